@@ -630,7 +630,7 @@ func (g *G) mapObjectResult(meth *m.Method) {
 				canHeader = false
 			}
 		}
-		if canHeader && g.d.Underlying(f.Attr) != m.String && g.avoid("C07-openapi2-response-header-go-type-names") {
+		if canHeader && (g.d.Underlying(f.Attr) != m.String || f.Attr.Type.Kind == m.User) && g.avoid("C07-openapi2-response-header-go-type-names") {
 			canHeader = false
 		}
 		if canHeader && GeneratedLocals[lowerCamel(f.Name)] && g.avoid("C01-param-named-like-generated-local") {
